@@ -11,6 +11,11 @@ try:
         r = subprocess.run(["./check", p, "--tier", "quick"], cwd="/verif", capture_output=True, text=True)
         v = [l for l in r.stdout.splitlines() if l.startswith("VIOLATION")]
         res[p] = dict(exit=r.returncode, violation=v[0] if v else None)
+        if v:
+            import re, shutil
+            m = re.search(r"replay=(\S+)", v[0])
+            if m and os.path.exists(os.path.join("/verif", m.group(1))):
+                shutil.move(os.path.join("/verif", m.group(1)), os.path.join(d, f"replay_{p}.json"))
         print(p, r.returncode, v[:1], flush=True)
 finally:
     subprocess.run(["git", "-C", "/repo", "checkout", "--", "."], check=True)
